@@ -1,6 +1,9 @@
 package h
 
-import "math/rand"
+import (
+	"fmt"
+	"math/rand"
+)
 
 // SeqProfileFor builds the profile variant for a scenario seed: schema, capacity, prologue and
 // transport rotate so that a batch of scenarios covers the configuration space.
@@ -30,6 +33,17 @@ func SeqProfileFor(name string, seed int64) SeqProfile {
 		}
 		p.PRollback, p.PFailIns = 0, 0
 		p.Collide = r.Intn(8) == 0
+	case "c01w": // wide rows: a transaction writes many columns (buffers, pool pages and registry entries beyond the first few)
+		for i := 0; i < 18; i++ {
+			p.Cols = append(p.Cols, ColDesc{fmt.Sprintf("n%02d", i), "int", []string{"add", "", "sat"}[i%3], NumericReprs[i%len(NumericReprs)]})
+		}
+		p.Cols = append(p.Cols, ColDesc{"s", "str", "concat", "string"}, ColDesc{"b", "bool", "", "bool"}, ColDesc{"e", "enum", "", "enum"})
+		p.Idx = []IdxDesc{{"big", "n00", "ge", 5}, {"big17", "n17", "ge", 5}}
+		p.IdxFirst = true
+		p.Wide = true
+		p.Steps = 16
+		p.PRollback, p.PFailIns = 0.15, 0.05
+		p.Prologue = []string{"", "block1"}[r.Intn(2)]
 	case "c02": // atomicity: rollbacks, failing inserts, an observer looking in mid-transaction, nothing emitted on rollback
 		p.Cols = []ColDesc{{"a", "int", "add", numRepr()}, {"s", "str", "concat", "string"}, {"b", "bool", "", "bool"}}
 		p.Idx = []IdxDesc{{"big", "a", "ge", 5}, {"on", "b", "true", 0}}
